@@ -163,3 +163,34 @@ def tellMany (c : Cfg L) (s : State V L) (xs : List (Nat × V)) : State V L :=
   xs.foldl (fun s e => tell c s e.1 e.2) s
 
 end L2D
+
+/-! ## Saving / restoring (`_get_data`, `_set_data`, `__getstate__`, `__setstate__`; `BaseLearner.save` / `load` / `copy_from`)
+
+`save` writes `_get_data()`; `load` and `copy_from` call `_set_data(data)` on the receiving learner (a fresh one in the restore
+scenarios).  The pickle protocol of `Learner2D` is its own: `__getstate__` returns `(function, bounds, loss_per_triangle, _stack,
+_get_data())`, `__setstate__` runs `__init__`, then `_set_data(data)`, then OVERWRITES `_stack` with the pickled one.  The pending
+set is in neither. -/
+namespace L2D
+variable {V L : Type}
+
+/-- `_get_data()` is `self.data` -/
+def getData (s : State V L) : List (Nat × V) := s.data
+
+/-- `_set_data(data)`: `self.data = data`, then `for point in copy(self._stack): if point in self.data: self._stack.pop(point)`
+(the loop runs over a COPY of the stack, popping from the live one) -/
+def setData (_c : Cfg L) (s : State V L) (d : List (Nat × V)) : State V L :=
+  { s with data := d,
+           stack := s.stack.foldl (fun st e => if hasKey d e.1 then apop st e.1 else st) s.stack }
+
+/-- `load(fname)` / `copy_from(other)` on a fresh learner: `_set_data` of the saved data, nothing else -/
+def restoreFile (c : Cfg L) (d : List (Nat × V)) : State V L := setData c (init c) d
+
+/-- the part of `__getstate__` that is learner state: `(self._stack, self._get_data())` -/
+def getState (s : State V L) : List (Nat × L) × List (Nat × V) := (s.stack, getData s)
+
+/-- `__setstate__`: `__init__`, `_set_data(data)`, then `self._stack = _stack` (the pickled stack replaces whatever `_set_data`
+left); `pending_points` is the empty set of `__init__` -/
+def setState (c : Cfg L) (st : List (Nat × L) × List (Nat × V)) : State V L :=
+  { (setData c (init c) st.2) with stack := st.1 }
+
+end L2D
